@@ -5,18 +5,22 @@
 #   3. the demonstration fails with the change and passes without it.
 # usage: confirm_seeded.sh <seeded-dir>      (dir has patch.diff, demo.c [, build_and_run.sh]); writes <dir>/confirm.log
 D=$(realpath "$1"); WT=/tmp/confwt_$$; LOG="$D/confirm.log"; : > "$LOG"
-say "base: ${BASE:-HEAD} = $(git -C /repo rev-parse --short ${BASE:-HEAD})" 2>/dev/null; say() { echo "$@" | tee -a "$LOG"; }
+say() { echo "$@" | tee -a "$LOG"; }; say "base: ${BASE:-HEAD} = $(git -C /repo rev-parse --short ${BASE:-HEAD})"
 git -C /repo worktree add --detach "$WT" "${BASE:-HEAD}" >/dev/null 2>&1 || { say "cannot create worktree"; exit 3; }
 cleanup() { git -C /repo worktree remove --force "$WT" >/dev/null 2>&1; rm -rf "$WT"; }
 trap cleanup EXIT
 demo() {  # $1 = label ; builds demo.c against the tree's current sources (no sanitizers unless demo asks) and runs it
+  if [ -f "$D/demo.py" ]; then   # Python demonstration (bindings): gets the tree as argv[1] and LIBSCI_WT
+    ( cd "$WT" && LIBSCI_WT="$WT" OPENBLAS_NUM_THREADS=1 timeout ${DEMO_TIMEOUT:-300} /usr/bin/python3 -B "$D/demo.py" "$WT" > "$WT/demo.out" 2>&1 ); local prc=$?
+    tail -3 "$WT/demo.out" >> "$LOG"; say "$1: demo.py exit code $prc"; find "$WT" -name __pycache__ -prune -exec rm -rf {} + 2>/dev/null; return $prc
+  fi
   local inc="-I$WT/src -I$WT/_build"
   local srcs=$(ls $WT/src/*.c | grep -v -E "datasets.c|variableselection.c")
   gcc -O1 -g -std=gnu99 -D_GNU_SOURCE -w $DEMO_CFLAGS $inc "$D/demo.c" $srcs -llapack -lblas -lsqlite3 -lm -lpthread -o "$WT/demo_bin" >> "$LOG" 2>&1 || { say "$1: demo does not build"; return 99; }
   ( cd "$WT" && OPENBLAS_NUM_THREADS=1 timeout ${DEMO_TIMEOUT:-300} ./demo_bin > "$WT/demo.out" 2>&1 ); local rc=$?
   tail -3 "$WT/demo.out" >> "$LOG"; say "$1: demo exit code $rc"; return $rc
 }
-DEMO_CFLAGS=$(grep -m1 -o "DEMO_CFLAGS:.*" "$D/demo.c" | sed 's/DEMO_CFLAGS://')
+DEMO_CFLAGS=$(grep -m1 -o "DEMO_CFLAGS:.*" "$D/demo.c" 2>/dev/null | sed 's/DEMO_CFLAGS://')
 cmake -G Ninja -S "$WT" -B "$WT/_build" >/dev/null 2>&1     # generates scientificconfig.h
 demo "clean tree"; RC_CLEAN=$?
 git -C "$WT" apply "$D/patch.diff" || { say "PATCH DOES NOT APPLY"; exit 3; }
